@@ -72,7 +72,8 @@ from edb.ir import statypes  # noqa: E402
 from edb.edgeql import qltypes  # noqa: E402
 
 FLOATS = [0.0, 0.5, 1.5, -2.25, 1e300, 3.0, 1e-9, 100.0]
-ENUMS = [statypes.TransactionIsolation, statypes.EnabledDisabledType, statypes.TransactionAccessMode]
+ENUMS = [statypes.TransactionIsolation, statypes.EnabledDisabledType, statypes.TransactionAccessMode,
+         statypes.TransactionDeferrability]
 SCOPES = ['SESSION', 'DATABASE', 'INSTANCE']
 SRC = {'INSTANCE': 'system override', 'DATABASE': 'database', 'SESSION': 'session'}
 
@@ -116,11 +117,111 @@ def py_prim(p):
 
 
 _SPEC_CACHE = {}
+_REAL = {}
+
+
+def real_spec():
+    """the REAL configuration spec: config.load_spec_from_schema(<std schema built from edb/lib>)"""
+    if 'sp' not in _REAL:
+        std = vrt.std_schema()
+        _REAL['std'] = std
+        _REAL['sp'] = config.load_spec_from_schema(std)
+        _REAL['json'] = dump_spec(_REAL['sp'])
+    return _REAL['sp'], _REAL['std'], _REAL['json']
+
+
+def enc_val(v):
+    """inverse of dec_val for spec defaults"""
+    if v is None or isinstance(v, (bool, int, str)):
+        return v
+    if isinstance(v, float):
+        return {'f': next(i for i, f in enumerate(FLOATS) if f == v)}
+    if isinstance(v, statypes.Duration):
+        return {'dur': v._value}
+    if isinstance(v, statypes.ConfigMemory):
+        return {'mem': v._value}
+    if isinstance(v, statypes.EnumScalarType):
+        return {'enum': [ENUMS.index(type(v)), str(v._val)]}
+    if isinstance(v, (frozenset, set)):
+        return {'fs': sorted((enc_val(x) for x in v), key=json.dumps)}
+    if isinstance(v, (tuple, list)):
+        return [enc_val(x) for x in v]
+    if isinstance(v, ctypes.CompositeConfigType):
+        ck = set(v._compare_keys)
+        return {'obj': [v._tspec.name, [[f, f in ck, enc_val(getattr(v, f))] for f in sorted(v._tspec.fields)]]}
+    raise ValueError('cannot encode default ' + repr(v))
+
+
+def enc_prim(t):
+    from edb.common import typing_inspect
+    if isinstance(t, type) and issubclass(t, statypes.EnumScalarType):
+        return ['enum', ENUMS.index(t), [str(m) for m in t.type]]
+    for py, nm in ((bool, 'bool'), (int, 'int'), (str, 'str'), (float, 'float'),
+                   (statypes.Duration, 'dur'), (statypes.ConfigMemory, 'mem')):
+        if t is py:
+            return nm
+    raise ValueError('unsupported python type in the spec: ' + repr(t))
+
+
+def dump_spec(sp):
+    from edb.common import typing_inspect
+    types_ = []
+    done = set()
+
+    def emit(ts):
+        if ts.name in done:
+            return
+        if ts.parent is not None:
+            emit(ts.parent)
+        done.add(ts.name)
+        fields = []
+        for fn in sorted(ts.fields):
+            f = ts.fields[fn]
+            if isinstance(f.type, ctypes.ConfigTypeSpec):
+                emit(f.type)
+                ft = ['obj', f.type.name]
+            elif typing_inspect.is_generic_type(f.type) and not (
+                    isinstance(f.type, type) and issubclass(f.type, statypes.EnumScalarType)):
+                assert typing_inspect.get_origin(f.type) is frozenset, f.type
+                ft = ['set', enc_prim(typing_inspect.get_args(f.type, evaluate=True)[0])]
+            else:
+                ft = ['p', enc_prim(f.type)]
+            d = {'n': fn, 't': ft, 'u': bool(f.unique)}
+            if f.default is not statypes.MISSING:
+                d['d'] = enc_val(f.default)
+            if f.secret:
+                d['secret'] = True
+            if f.protected:
+                d['protected'] = True
+            fields.append(d)
+        types_.append({'name': ts.name, 'parent': ts.parent.name if ts.parent is not None else None,
+                       'fields': fields})
+    for name in sorted(sp._types_by_name):
+        emit(sp._types_by_name[name])
+    settings = []
+    for name in sp:
+        st = sp[name]
+        if isinstance(st.type, ctypes.ConfigTypeSpec):
+            t = ['obj', st.type.name]
+        else:
+            t = ['p', enc_prim(st.type)]
+        settings.append({'n': name, 't': t, 'so': bool(st.set_of), 'd': enc_val(st.default),
+                         'sec': bool(st.secret), 'sys': bool(st.system), 'protected': bool(st.protected),
+                         'internal': bool(st.internal)})
+    return {'types': types_, 'settings': settings}
 
 
 def build_spec(js):
     key = json.dumps(js, sort_keys=True)
     if key in _SPEC_CACHE:
+        return _SPEC_CACHE[key]
+    if js.get('real'):
+        sp, std, dumped = real_spec()
+        want = dict(js)
+        want.pop('real')
+        assert json.dumps(dumped, sort_keys=True) == json.dumps(want, sort_keys=True), \
+            'the case was generated for a different real spec'
+        _SPEC_CACHE[key] = (sp, dict(sp._types_by_name))
         return _SPEC_CACHE[key]
     tsp = {}
     for t in js['types']:
@@ -272,12 +373,20 @@ def ql_eval(node):
     raise ValueError('unsupported expression ' + type(node).__name__)
 
 
-def ql_to_ops(text, sp, tsp):
+def ql_to_ops(text, sp, tsp, std=None):
     qlparser, qlast, staeval = ql_mods()
     from edb.common import typeutils
     out = []
     for st in qlparser.parse_block(text):
-        if isinstance(st, qlast.ConfigSet):
+        if std is not None and isinstance(st, (qlast.ConfigSet, qlast.ConfigReset)):
+            # the REAL path of compiler._compile_ql_config_op (minus SQL generation):
+            # compile_ast_to_ir + evaluate_to_config_op on the real std schema
+            from edb.edgeql import compiler as qlcompiler
+            ir = qlcompiler.compile_ast_to_ir(
+                st, schema=std,
+                options=qlcompiler.CompilerOptions(modaliases={None: 'default'}, in_server_config_op=True))
+            out.append(staeval.evaluate_to_config_op(ir, schema=std))
+        elif isinstance(st, qlast.ConfigSet):
             name = st.name.name
             val = ql_eval(st.expr)
             if sp[name].set_of:
@@ -308,14 +417,14 @@ def ql_to_ops(text, sp, tsp):
     return out
 
 
-def edgeql_roundtrip(sp, tsp, m):
+def edgeql_roundtrip(sp, tsp, m, std=None):
     """returns (status, detail).  status: 'ok' | 'raise:<phase>:<exc>' | 'differs'"""
     try:
         text = ops.to_edgeql(sp, m, with_secrets=True)
     except Exception as e:
         return 'raise:to_edgeql:' + ename(e), str(e)[:120]
     try:
-        oplist = ql_to_ops(text, sp, tsp)
+        oplist = ql_to_ops(text, sp, tsp, std)
     except Exception as e:
         return 'raise:parse:' + ename(e), (str(e)[:120] + ' | ' + text[:200])
     m2 = immutables.Map()
@@ -328,7 +437,7 @@ def edgeql_roundtrip(sp, tsp, m):
     # recorded for the stored ones.  (An empty object set yields no statement: it reloads as
     # "not set", whose effective value is the empty default.)
     def eff(mm):
-        return sorted((n, pv(mm[n].value if n in mm else sp[n].default)) for n in sp)
+        return sorted((n, pv(mm[n].value if n in mm else sp[n].default)) for n in sp if not sp[n].protected)
     a, b = eff(m), eff(m2)
     if a != b:
         da = [t for t in a if t not in b]
@@ -475,6 +584,14 @@ def run_case(js):
                         extra = [x for x in new if pv(x) not in oldp]
                         if len(new) != len(old) + 1 or len(extra) != 1 or any(p not in newp for p in oldp):
                             fail(f'insert-not-union@{idx}')
+                        # fields the payload does not give (or gives as None) carry the spec's default
+                        if len(extra) == 1 and isinstance(payload, dict) and 'd' in payload:
+                            given = {k for k, v in payload['d'] if v is not None}
+                            tdesc = next((t for t in js['spec']['types'] if t['name'] == extra[0]._tspec.name), None)
+                            for f in (tdesc['fields'] if tdesc else []):
+                                if f['n'] not in given and 'd' in f:
+                                    if pv(getattr(extra[0], f['n'])) != pv(dec_val(f['d'], tsp)):
+                                        fail(f'field-default-not-applied@{idx}')
                         objs = list(new)
                         for i in range(len(objs)):
                             for j in range(i + 1, len(objs)):
@@ -548,7 +665,7 @@ def run_case(js):
         if not NOQL and js.get('ql', True):
             mm = m
             for attempt in (0, 1):
-                st, detail = edgeql_roundtrip(sp, tsp, mm)
+                st, detail = edgeql_roundtrip(sp, tsp, mm, _REAL.get('std') if js['spec'].get('real') else None)
                 if st != 'ok':
                     fail(f'edgeql-roundtrip:{sname}:{st}')
                     info.append(detail)
@@ -588,7 +705,40 @@ def _json_safe(sdesc, name, value):
     return True
 
 
+def compile_texts():
+    """mode `compile`: one CONFIGURE statement per line -> the Operation the REAL compiler front end
+    produces for it (compile_ast_to_ir + staeval.evaluate_to_config_op on the std schema, i.e.
+    compiler._compile_ql_config_op without SQL generation), or the exception class"""
+    sp, std, _ = real_spec()
+    qlparser, qlast, staeval = ql_mods()
+    from edb.edgeql import compiler as qlcompiler
+    out = []
+    for line in sys.stdin:
+        line = line.rstrip('\n')
+        if not line:
+            continue
+        text = json.loads(line)['t']
+        try:
+            sts = qlparser.parse_block(text)
+            assert len(sts) == 1
+            ir = qlcompiler.compile_ast_to_ir(
+                sts[0], schema=std,
+                options=qlcompiler.CompilerOptions(modaliases={None: 'default'}, in_server_config_op=True))
+            o = staeval.evaluate_to_config_op(ir, schema=std)
+            out.append(json.dumps({'op': [str(o.opcode), str(o.scope), o.setting_name, enc_val(o.value)]}))
+        except Exception as e:
+            out.append(json.dumps({'err': ename(e), 'msg': str(e)[:160]}))
+    sys.stdout.write('\n'.join(out) + '\n')
+
+
 def main():
+    if len(sys.argv) > 2 and sys.argv[2] == 'compile':
+        compile_texts()
+        return
+    if len(sys.argv) > 2 and sys.argv[2] == 'specdump':
+        sp, std, dumped = real_spec()
+        sys.stdout.write(json.dumps(dumped) + '\n')
+        return
     out = []
     for line in sys.stdin:
         line = line.rstrip('\n')
